@@ -879,14 +879,9 @@ class TupimageTerminal:
             with tempfile.NamedTemporaryFile(
                 "wb", delete=False, prefix="tty-graphics-protocol-"
             ) as f:
-                image_object.save(
-                    f,
-                    format=(
-                        image_object.format
-                        if self._is_format_supported(image_object.format)
-                        else "PNG"
-                    ),
-                )
+                # Always re-encode losslessly (like the direct transmission below): saving
+                # in a lossy source format (e.g. JPEG) again would change the pixels.
+                image_object.save(f, format="PNG")
                 f.flush()
                 size = f.tell()
                 f.close()
